@@ -2,6 +2,7 @@ package verifxfer
 
 import (
 	"bufio"
+	"encoding/binary"
 	"encoding/hex"
 	"encoding/json"
 	"fmt"
@@ -37,26 +38,32 @@ var crashSites = map[string]bool{
 }
 
 type childSpec struct {
-	Src        string // parent directory holding the materialised tree
-	Base       string // tree base name
-	Out        string
-	Chunk      int
-	Streams    int
-	NoRootDir  bool
-	Mode       string
-	QUICVis    bool
-	Kind       string // "none", "kill" (SIGKILL at hook hit KillAt), "drop" (connection lost at hook hit KillAt)
-	KillAt     int
-	KillSite   string // "" = count every crash-point hit; else only hits of this site count for KillAt
-	FlushEvery int    // every n-th chunk mark triggers transfer.FlushAllFlushers() concurrently (0 = never)
-	ExitFlush  bool   // after a drop: flush metadata before exiting (SIGINT path) or not (os.Exit path)
-	Journal    string
-	Result     string
-	HashDelay  int
-	FsizeLimit int64 // >0: RLIMIT_FSIZE of the child: writes beyond this file offset fail (disk-full like fault)
-	Segment    int   // >0: a read on the transport returns at most this many bytes (records arrive in pieces)
-	CutOrdinal int   // Kind "cut": this data stream (ordinal >= 1) ends (FIN) at byte CutOffset of the sender's
-	CutOffset  int64 // direction while every other stream goes on
+	Src         string // parent directory holding the materialised tree
+	Base        string // tree base name
+	Out         string
+	Chunk       int
+	Streams     int
+	NoRootDir   bool
+	Mode        string
+	QUICVis     bool
+	Kind        string // "none", "kill" (SIGKILL at hook hit KillAt), "drop" (connection lost at hook hit KillAt)
+	KillAt      int
+	KillSite    string // "" = count every crash-point hit; else only hits of this site count for KillAt
+	FlushEvery  int    // every n-th chunk mark triggers transfer.FlushAllFlushers() concurrently (0 = never)
+	ExitFlush   bool   // after a drop: flush metadata before exiting (SIGINT path) or not (os.Exit path)
+	Journal     string
+	Result      string
+	HashDelay   int
+	FsizeLimit  int64             // >0: RLIMIT_FSIZE of the child: writes beyond this file offset fail (disk-full like fault)
+	Segment     int               // >0: a read on the transport returns at most this many bytes (records arrive in pieces)
+	CutOrdinal  int               // Kind "cut": this data stream (ordinal >= 1) ends (FIN) at byte CutOffset of the sender's
+	CutOffset   int64             // direction while every other stream goes on
+	FlipCounts  map[string]uint32 // Kind "flip": chunks per file key (decimal) as seen in the uninterrupted run
+	FlipTarget  int               // Kind "flip": the n-th data frame that is not the last chunk of a file with >= 3 chunks gets one
+	FlipDelayMs int               // payload bit inverted in flight and arrives this late (the receiver's checksum then fails)
+	HoldLast    bool              // the goroutine that received a file's last chunk waits between payload check and write
+	//                  until a failure-finalize of that file has run (or 300 ms): "a stream fails while another
+	//                  still has a verified chunk of the same file in its hands"
 }
 
 type childResult struct {
@@ -67,6 +74,9 @@ type childResult struct {
 	Frames           []childFrame
 	Hits             int
 	StreamBytes      map[int]int64 // bytes the sender wrote per stream ordinal (for placing a cut)
+	Flipped          bool          // Kind "flip": the damage was applied
+	HeldReleased     int           // HoldLast: last chunks written after a failure-finalize of their file
+	HeldTimedOut     int           // HoldLast: last chunks written after 300 ms without one
 }
 type childInfo struct {
 	FileID string
@@ -78,6 +88,9 @@ type childInfo struct {
 type childFrame struct {
 	Key   uint64
 	Index uint32
+	Ord   int    // data stream ordinal
+	Off   int64  // offset of the frame on that stream
+	Len   uint32 // payload length
 }
 
 // TestVerifChild is the child entry point; it does nothing unless VERIF_CHILD is set.
@@ -119,16 +132,80 @@ func childMain(sp childSpec) int {
 		return 3
 	}
 	tap := &verifkit.Tap{}
+	var flipMu sync.Mutex
+	flipHdr := map[int][]byte{}
+	var flipSeen, flipOrd int
+	var flipOff int64
+	var flipDone bool
 	pair, err := p.newPair(func(int) verifkit.MemOptions {
 		o := verifkit.MemOptions{QUICVisibility: sp.QUICVis, Tap: tap, Segment: sp.Segment}
 		if sp.Kind == "cut" && sp.CutOrdinal >= 1 {
 			o.Fault = &verifkit.Fault{Kind: verifkit.FaultTruncate, Ordinal: sp.CutOrdinal, Dir: verifkit.AtoB, Offset: sp.CutOffset}
+		}
+		if sp.Kind == "flip" {
+			o.Mutate = func(ord int, d verifkit.Dir, off int64, b []byte) []byte {
+				if d != verifkit.AtoB || ord == 0 {
+					return nil
+				}
+				flipMu.Lock()
+				defer flipMu.Unlock()
+				// the sender writes a frame as two pieces: 20 header bytes, then the payload
+				h := flipHdr[ord]
+				if h == nil {
+					if len(b) == 20 {
+						flipHdr[ord] = append([]byte(nil), b...)
+					}
+					return nil
+				}
+				flipHdr[ord] = nil
+				key, idx, ln := binary.BigEndian.Uint64(h[0:8]), binary.BigEndian.Uint32(h[8:12]), binary.BigEndian.Uint32(h[12:16])
+				total := sp.FlipCounts[fmt.Sprint(key)]
+				if flipDone || int(ln) != len(b) || total < 3 || idx+1 >= total {
+					return nil
+				}
+				flipSeen++
+				if flipSeen != sp.FlipTarget {
+					return nil
+				}
+				flipDone, flipOrd, flipOff = true, ord, off
+				alt := append([]byte(nil), b...)
+				alt[len(alt)/2] ^= 0x40
+				return alt
+			}
+			o.Latency = func(ord int, d verifkit.Dir, off int64) time.Duration {
+				flipMu.Lock()
+				defer flipMu.Unlock()
+				if flipDone && d == verifkit.AtoB && ord == flipOrd && off == flipOff {
+					return time.Duration(sp.FlipDelayMs) * time.Millisecond
+				}
+				return 0
+			}
 		}
 		return o
 	})
 	if err != nil {
 		return 3
 	}
+	// HoldLast: last chunk index of every file with at least three chunks, by relative path
+	lastIdx := map[string]int64{}
+	for _, it := range p.m.Items {
+		if !it.IsDir && sp.Chunk > 0 {
+			if n := (int64(it.Size) + int64(sp.Chunk) - 1) / int64(sp.Chunk); n >= 3 {
+				lastIdx[it.RelPath] = n - 1
+			}
+		}
+	}
+	var holdMu sync.Mutex
+	holds := map[string]chan struct{}{}
+	holdCh := func(rel string) chan struct{} {
+		holdMu.Lock()
+		defer holdMu.Unlock()
+		if holds[rel] == nil {
+			holds[rel] = make(chan struct{})
+		}
+		return holds[rel]
+	}
+	var heldReleased, heldTimedOut atomic.Int64
 	var hits atomic.Int64
 	var marks atomic.Int64
 	var siteHits atomic.Int64
@@ -136,6 +213,36 @@ func childMain(sp childSpec) int {
 	verifhook.Set(func(name, detail string, n int64) {
 		if name == "send.verify.hash.before" && sp.HashDelay > 0 {
 			time.Sleep(time.Duration(sp.HashDelay) * time.Millisecond)
+		}
+		if sp.HoldLast {
+			switch name {
+			case "send.chunk.before":
+				// in memory a worker would otherwise drain a whole file on its stream before
+				// the next worker is scheduled: let the chunks of a file spread over the streams
+				time.Sleep(2 * time.Millisecond)
+			case "recv.chunk.payload":
+				if last, ok := lastIdx[detail]; ok && n == last {
+					select {
+					case <-holdCh(detail):
+						heldReleased.Add(1)
+					case <-time.After(300 * time.Millisecond):
+						heldTimedOut.Add(1)
+					}
+				}
+			case "recv.finalize.after":
+				holdMu.Lock()
+				ch := holds[detail]
+				if ch == nil {
+					ch = make(chan struct{})
+					holds[detail] = ch
+				}
+				select {
+				case <-ch:
+				default:
+					close(ch)
+				}
+				holdMu.Unlock()
+			}
 		}
 		if !crashSites[name] {
 			return
@@ -171,7 +278,10 @@ func childMain(sp childSpec) int {
 	if sp.Kind == "drop" && sp.ExitFlush {
 		transfer.FlushAllFlushers()
 	}
-	out := childResult{Hung: res.Hung, HangKind: res.HangKind, Hits: int(hits.Load())}
+	out := childResult{Hung: res.Hung, HangKind: res.HangKind, Hits: int(hits.Load()), HeldReleased: int(heldReleased.Load()), HeldTimedOut: int(heldTimedOut.Load())}
+	flipMu.Lock()
+	out.Flipped = flipDone
+	flipMu.Unlock()
 	if res.SendErr != nil {
 		out.SendErr = res.SendErr.Error()
 	}
@@ -201,7 +311,7 @@ func childMain(sp childSpec) int {
 	for k := range tap.Counts() {
 		if k[1] == int(verifkit.AtoB) && k[0] != 0 {
 			for _, fr := range verifnet.ParseData(tap.StreamBytes(k[0], verifkit.AtoB)) {
-				out.Frames = append(out.Frames, childFrame{Key: fr.Key, Index: fr.Index})
+				out.Frames = append(out.Frames, childFrame{Key: fr.Key, Index: fr.Index, Ord: k[0], Off: int64(fr.Offset), Len: fr.Len})
 			}
 		}
 	}
